@@ -152,6 +152,11 @@ class Machine:
                     env.update(e2)
                     return True
             return False
+        if k == "slice":
+            ps_ = p.get("pats", [])
+            if not (isinstance(v, list) and len(v) == len(ps_)):
+                raise Unknown("slice pattern against %r" % (v if not isinstance(v, list) else "[..]",))
+            return all(self.match(pp, vv, env) for pp, vv in zip(ps_, v))
         if k == "range":
             raise Unknown("range pattern")
         raise Unknown("pattern " + str(k))
@@ -274,6 +279,8 @@ class Machine:
                 return "<formatted>"
             if e["name"] in ("warn", "info", "debug", "trace", "error", "eprintln", "println", "log"):
                 return None
+            if e["name"] == "vec":
+                return [self.ev(a, env) for a in e.get("args", [])]
             raise Unknown("macro " + e["name"])
         if k == "struct":
             return ("struct", str(e.get("path", "")).split("::")[-1], {f[0]: self.ev(f[1], env) for f in e.get("fields", [])})
@@ -290,6 +297,14 @@ class Machine:
             l = e["l"]
             while l.get("k") in ("ref",) or (l.get("k") == "un" and l.get("op") == "Deref"):
                 l = l["e"]
+            if l.get("k") == "field":
+                base = self.ev(l["e"], env)
+                if isinstance(base, tuple) and base and base[0] == "struct" and isinstance(base[2], dict):
+                    r = self.ev(e["r"], env)
+                    if k == "assignop":
+                        r = self.binop(e.get("op"), base[2].get(l["name"]), r)
+                    base[2][l["name"]] = r
+                    return None
             if not (l.get("k") == "path" and l.get("res") == "local"):
                 raise Unknown("assignment to a place")
             r = self.ev(e["r"], env)
@@ -463,6 +478,13 @@ class Machine:
             return self.call_named(f[1], args)
         raise Unknown("call of %r" % (f,))
 
+    def hook_for(self, fn):
+        """a hook registered for this callee: keys with `::` match a path suffix (`Regex::new`), plain keys the last segment"""
+        for k_, v_ in self.hooks.items():
+            if "::" in k_ and not k_.startswith("__") and (fn == k_ or fn.endswith("::" + k_) or fn.endswith(k_)):
+                return v_
+        return self.hooks.get(fn.split("::")[-1])
+
     def run_fn(self, h, args):
         """evaluate the body of the fn record `h` on `args` (hooks are not consulted for `h` itself)"""
         env2 = Env()
@@ -479,8 +501,9 @@ class Machine:
 
     def call_named(self, fn, args):
         last = fn.split("::")[-1]
-        if last in self.hooks:
-            return self.hooks[last](self, *args)
+        hk_ = self.hook_for(fn)
+        if hk_ is not None:
+            return hk_(self, *args)
         if last in ("min", "max") and len(args) == 2 and all(isinstance(a, (int, float)) for a in args):
             return min(args) if last == "min" else max(args)
         if self.c is not None and fn in self.c.hir and not self.c.hir[fn].get("derived"):
@@ -512,6 +535,9 @@ class Machine:
             f = self.ev(e["f"], env) if isinstance(e.get("f"), dict) else None
             return self.apply(f, args)
         last = fn.split("::")[-1]
+        hk_ = self.hook_for(fn)
+        if hk_ is not None:
+            return hk_(self, *args)
         if last in ("from", "into", "clone", "to_string", "new") and len(args) == 1:
             return args[0]
         return self.call_named(fn, args)
@@ -577,6 +603,21 @@ class Machine:
                 return ("Ok", recv[1]) if s else ("Err", self.apply(args[0], []))
             if name == "zip":
                 return some(("tup", [recv[1], args[0][1]])) if s and is_opt(args[0]) and args[0][0] == "Some" else NONE
+            if name == "flatten":
+                if not s:
+                    return NONE
+                if is_opt(recv[1]):
+                    return recv[1]
+                raise Unknown("flatten of %r" % (recv,))
+            if name == "transpose":
+                if not s:
+                    return ("Ok", NONE)
+                inner = recv[1]
+                if isinstance(inner, tuple) and inner and inner[0] == "Ok":
+                    return ("Ok", some(inner[1]))
+                if isinstance(inner, tuple) and inner and inner[0] == "Err":
+                    return inner
+                raise Unknown("transpose of %r" % (recv,))
             if name == "xor":
                 raise Unknown("xor")
         if isinstance(recv, tuple) and recv and recv[0] in ("Ok", "Err"):
